@@ -25,19 +25,20 @@ import random
 from .. import common, runner, helpers11, hsm11
 from ..runner import Exploration, Failure
 
-KNOWN = (helpers11.REMOVE_SIG, hsm11.KNOWN_TRIGGERS_SIG, hsm11.KNOWN_TRANSITIONS_SIG, hsm11.KNOWN_WRAPPER_SIG)
 
 STREAMS = {
     'flat': lambda: helpers11.Knobs(),
     'flat-clash': lambda: helpers11.Knobs(p_clash=0.9, p_remove=0.25, p_override=0.4, p_odd_event=0.15, max_models=2),
     'hsm': lambda: hsm11.HKnobs(),
-    'hsm-custom-sep': lambda: hsm11.HKnobs(p_custom_sep=1.0, p_clash=0.2, p_override=0.1),
+    'hsm-custom-sep': lambda: hsm11.HKnobs(p_custom_sep=1.0, p_clash=0.35, p_override=0.25),
+    'hsm-enum': lambda: hsm11.HKnobs(p_enum=1.0, p_clash=0.2, p_override=0.1, p_children=0.6),
 }
 BUDGET = {   # stream -> (quick: chunks, per chunk), (thorough: chunks, per chunk)
     'flat': ((12, 70), (48, 280)),
     'flat-clash': ((4, 60), (16, 200)),
     'hsm': ((12, 14), (48, 75)),
     'hsm-custom-sep': ((4, 10), (16, 55)),
+    'hsm-enum': ((4, 10), (16, 40)),
 }
 
 
@@ -207,8 +208,8 @@ class C11(runner.Check):
              "is trigger(name), to_<state> exists iff auto transitions and ends in its state, get_triggers / "
              "get_transitions equal the events table, a model's own attributes are never replaced (with "
              "model_override only those are), an event cannot be named like the state attribute, helper names are "
-             "injective; the clauses that are false on the pinned tree carry a _partial theorem and a proved "
-             "counterexample. Tied to /repo by comparing, after every step of generated histories on the real "
+             "injective; all clauses are proved at full strength for the repaired code (fixes 78d98e1, 6de1ae6, b3feefd, "
+             "0b25ad6), the former witnesses are regression cases. Tied to /repo by comparing, after every step of generated histories on the real "
              "Machine / HierarchicalMachine, the model's snapshot with full introspection of every model, and judged "
              "on the implementation by an oracle that states the clauses directly (every is_* called, event method vs "
              "trigger and to_* on deep-copied twins, get_triggers against really firing every event from every state).",
@@ -221,16 +222,13 @@ class C11(runner.Check):
                   "after every step + property oracle on the implementation")
     theorems = ('TM.Helpers.C11_exactly_one_is', 'TM.Helpers.C11_is_helper_answers_current',
                 'TM.Helpers.C11_exactly_one_is_engine', 'TM.Helpers.C11_is_state_nested',
-                'TM.Helpers.C11_event_method_eq_trigger', 'TM.Helpers.C11_event_method_exists_partial',
-                'TM.Helpers.C11_event_method_exists_counterexample',
+                'TM.Helpers.C11_event_method_eq_trigger', 'TM.Helpers.C11_event_method_exists',
+                'TM.Helpers.C11_trigger_exists',
                 'TM.Helpers.C11_to_iff_auto', 'TM.Helpers.C11_get_triggers_exact', 'TM.Helpers.C11_get_transitions_exact',
-                'TM.Helpers.C11_get_triggers_nested_sound', 'TM.Helpers.C11_get_triggers_nested_partial',
-                'TM.Helpers.C11_get_triggers_nested_counterexample',
-                'TM.Helpers.C11_get_transitions_nested_partial', 'TM.Helpers.C11_get_transitions_nested_counterexample',
-                'TM.Helpers.C11_wrapper_binding_partial', 'TM.Helpers.C11_wrapper_binding_counterexample',
-                'TM.Helpers.C11_no_overwrite_partial', 'TM.Helpers.C11_no_overwrite_counterexample',
-                'TM.Helpers.C11_override_only_replaces', 'TM.Helpers.C11_checked_assignment', 'TM.Helpers.C11_trigger_ne_attribute',
-                'TM.Helpers.C11_names_injective')
+                'TM.Helpers.C11_get_triggers_nested', 'TM.Helpers.C11_get_transitions_nested',
+                'TM.Helpers.C11_no_overwrite', 'TM.Helpers.C11_override_only_replaces',
+                'TM.Helpers.C11_checked_assignment', 'TM.Helpers.C11_wrapper_binding',
+                'TM.Helpers.C11_trigger_ne_attribute', 'TM.Helpers.C11_names_injective')
     rule = ('flat: random model_attribute / model_override / auto_transitions / Enum-or-string states, 1-2 model classes '
             'predefining up to 4 clashing names as methods, class values, instance values or None (or the machine as '
             'its own model), histories of 4-20 calls (initial, add_states, add_transition incl. "*", "=", internal, '
